@@ -559,15 +559,15 @@ fn do_additional_section_processing(
 ///
 /// [RFC 2308 § 3]: https://datatracker.ietf.org/doc/html/rfc2308#section-3
 fn add_negative_caching_soa(zone: &impl Zone, response: &mut Writer) -> ProcessingResult<()> {
-    // Note that per RFC 2308 § 3, the TTL we are to use is not the TTL
-    // of the SOA record itself, but rather the SOA MINIMUM field.
+    // Note that per RFC 2308 § 3, the TTL we are to use is the minimum
+    // of the SOA MINIMUM field and the TTL of the SOA record itself.
     let soa_rrset = zone.soa().ok_or(ProcessingError::ServFail)?;
     let soa_rdata = soa_rrset
         .rdatas
         .iter()
         .next()
         .ok_or(ProcessingError::ServFail)?;
-    let ttl = Ttl::from(read_soa_minimum(soa_rdata)?);
+    let ttl = Ttl::from(read_soa_minimum(soa_rdata)?).min(soa_rrset.ttl);
     response
         .add_authority_rr(
             HintedName::new(Hint::None, zone.name()),
